@@ -207,13 +207,20 @@ def subquery_capture_explains(stmt, op, s0, s1):
     return {(col(s), t) for s, t in removed} == {(col(s), t) for s, t in added}
 
 
+def owner_only_difference(s0, s1):
+    if "error" in s0 or "error" in s1 or s0["tables"] != s1["tables"]:
+        return False
+    col = lambda e: e.rsplit(".", 1)[-1]
+    return sorted({(col(s), t) for s, t in map(tuple, s0["pairs"])}) == sorted({(col(s), t) for s, t in map(tuple, s1["pairs"])})
+
+
 # ------------------------------------------------------------------------------------------------- cases
 def gen_statements(chk):
     out = []
     thorough = chk.tier == "thorough"
     shapes = list(gensql.enumerate_shapes(2 if thorough else 1))
     chk.rng.shuffle(shapes)
-    n_shapes = 150 if thorough else 40
+    n_shapes = 150 if thorough else 50
     picked = 0
     for name, s in shapes:
         if picked >= n_shapes:
@@ -222,7 +229,7 @@ def gen_statements(chk):
         if any(isinstance(n, list) and n and n[0] in ("derived", "with") for n in gensql._walk(s)) or \
                 any(isinstance(n, list) and len(n) == 4 and n[0] == "table" and n[2] for n in gensql._walk(s)):
             out.append((name, s)); picked += 1
-    n_rand = 420 if thorough else 100
+    n_rand = 420 if thorough else 120
     R = gensql.Rand(chk.rng, max_depth=3 if thorough else 2, allow={"subq_item": False})
     i = 0
     guard = 0
@@ -249,24 +256,57 @@ def evaluate_pair(drv, stmt, op, dialect):
 
 
 def verdict_class(a, op):
-    """which renamings are inside the property's quantifier: the operation's side condition as decided by Lean"""
+    """which pairs are inside the property's quantifier (the operation's side condition as decided by Lean), and whether the
+    pair touches the D7 shape: `d7` = either statement has an alias (written or default) equal to the bare name of a table"""
     if op["op"] == "rename":
-        if a["ok"]:
-            return "fresh"
-        if a["loose"] and a["d7"]:
-            return "d7"
+        if not (a["ok"] or (a["loose"] and a["d7"])):
+            return None
+    elif not a["ok"]:
         return None
-    return "ok" if a["ok"] else None
+    return "d7" if (a.get("d7_shape") or a.get("d7")) else ("fresh" if op["op"] == "rename" else "ok")
 
 
-def property_fails(drv, stmt, op, dialect, want_class, cache):
-    r0, r1, a = evaluate_pair(drv, stmt, op, dialect)
-    if r0 is None or r1 is None or not a["changed"]:
+def classify(drv, stmt, op, a, x0, x1, mm0, mm1, cache, listed):
+    """one pair -> ('rejected' | 'invariant' | 'known:<id>' | 'fail', details).  x0/x1: implementation results, mm0/mm1: model
+    results (None = ask the driver), listed: ids of the findings listed for C08 with status `finding`."""
+    if x0 is None or x1 is None:
+        return "rejected", {}
+    cls = verdict_class(a, op)
+    bm = back_map(op)
+    s0, s1 = summary(x0), summary(x1, bm)
+    det = {"s0": s0, "s1": s1, "cls": cls}
+    impl_inv = same_modulo_star(drv, stmt, a["stmt"], s0, s1, cache)
+    model_applies = not gensql.item_has_subq(stmt)
+    det["model_applies"] = model_applies
+    if model_applies:
+        if mm0 is None:
+            mm0 = model_res(sqlcheck.model_eval(drv, [[stmt]])[0])
+        if mm1 is None:
+            mm1 = model_res(sqlcheck.model_eval(drv, [[a["stmt"]]])[0])
+        ms0, ms1 = summary(mm0), summary(mm1, bm)
+        det.update({"ms0": ms0, "ms1": ms1, "model_inv": same_modulo_star(drv, stmt, a["stmt"], ms0, ms1, cache)})
+    if impl_inv:
+        return "invariant", det
+    if cls == "d7" and "D7" in listed and model_applies and not det["model_inv"] and s0 == det["ms0"] and s1 == det["ms1"]:
+        return "known:D7", det
+    if cls == "d7" and "D2-alias-capture" in listed and subquery_capture_explains(stmt, op, s0, s1):
+        return "known:D2-alias-capture", det
+    if cls == "d7" and "D7" in listed and not model_applies and owner_only_difference(s0, s1):
+        # a select-item subquery keeps the statement out of the model (`_get_column_from_subquery`): D7 is then recognised by its
+        # model-free signature — same tables, same (column, target) pairs, only the OWNER of some source columns differs
+        return "known:D7", det
+    return "fail", det
+
+
+def property_fails(drv, stmt, op, dialect, want_class, cache, listed):
+    """shrinking predicate: the pair is still inside the quantifier, still of the same class, still fails, and has not become
+    an instance of a listed finding"""
+    x0, x1, a = evaluate_pair(drv, stmt, op, dialect)
+    if x0 is None or x1 is None or not a["changed"]:
         return False
     if verdict_class(a, op) != want_class:
         return False
-    s0, s1 = summary(r0), summary(r1, back_map(op))
-    return not same_modulo_star(drv, stmt, a["stmt"], s0, s1, cache)
+    return classify(drv, stmt, op, a, x0, x1, None, None, cache, listed)[0] == "fail"
 
 
 def shape_of(sql, dialect):
@@ -285,10 +325,6 @@ def shape_of(sql, dialect):
         return go(tree)
     except Exception as e:     # noqa
         return ["<error>", type(e).__name__]
-
-
-def strip_alias_shape(sh):
-    return sh
 
 
 WITNESS_D7 = {
@@ -313,8 +349,8 @@ def run(chk):
     K = 10 if thorough else 3
     d7_entry = next((e for e in chk.findings if e.get("id") == "D7"), None)
     d7_listed = bool(d7_entry and d7_entry.get("status") == "finding")
-    cap_listed = chk.finding("D2-alias-capture") is not None
-    cap_hits = 0
+    listed = {e["id"] for e in chk.findings if e.get("status") == "finding"}
+    known_hits = collections.Counter()
     cache = {}
     st = sqlcheck.Stats()
 
@@ -379,7 +415,6 @@ def run(chk):
     r1 = sqlimpl.run_cases([{"sql": keep[ci][2]["sql"], "dialect": d, "want": ("tables", "columns")} for ci, d in jobs1], chunksize=8)
     # ---- classify
     failures = []          # (si, op, dialect, cls, why)
-    d7_hits = 0
     d7_class_cases = 0
     witness_deviates = None
     for (ci, d), i1 in zip(jobs1, r1):
@@ -400,58 +435,50 @@ def run(chk):
             continue
         st.accept[d] += 1
         bm = back_map(op)
-        s0, s1 = summary(x0), summary(x1, bm)
+        s0 = summary(x0)
         nontrivial = "error" not in s0 and bool(s0["tables"]["source"] or s0["tables"]["target"])
         chk.count(canon_json([a["orig_sql"], a["sql"], d]), nontrivial)
         st.c["op:" + op["op"]] += 1
         st.c["class:" + cls] += 1
         if "error" not in s0 and s0["pairs"]:
             st.c["with-column-pairs"] += 1
-        impl_inv = same_modulo_star(drv, stmt, a["stmt"], s0, s1, cache)
-        # model's verdict on the same pair
-        mm0, mm1 = model_res(m0[si]), model_res(m1[ci])
-        ms0, ms1 = summary(mm0), summary(mm1, bm)
-        model_applies = not gensql.item_has_subq(stmt)
-        model_inv = same_modulo_star(drv, stmt, a["stmt"], ms0, ms1, cache)
+        verdict, det = classify(drv, stmt, op, a, x0, x1, model_res(m0[si]), model_res(m1[ci]), cache, listed)
+        s1 = det["s1"]
         if cls == "d7":
             d7_class_cases += 1
         if si is None:
-            witness_deviates = not impl_inv
-        if impl_inv:
+            witness_deviates = verdict != "invariant"
+        if verdict == "invariant":
             if st.c["invariant"] % 300 == 0:
                 chk.sample({"sql": a["orig_sql"], "renamed": a["sql"], "op": {k: op[k] for k in ("op", "subst", "names") if k in op},
                             "dialect": d, "tables": s0.get("tables"), "pairs": s0.get("pairs")})
             st.c["invariant"] += 1
-            if model_applies and not model_inv:
-                # the model says the code is not invariant here, the code is: the model no longer describes the code
-                st.c["stale:model-not-invariant"] += 1
-                if len(chk.stale) < 20:
-                    chk.stale.append({"kind": "c08-pair", "sql": a["orig_sql"], "renamed": a["sql"], "dialect": d,
-                                      "impl": [s0, s1], "model": [ms0, ms1], "class": cls})
-            elif model_applies and summary(x0) == ms0 and s1 != ms1 and not same_modulo_star(drv, a["stmt"], a["stmt"], s1, ms1, cache):
-                # agree on the original, disagree on the renamed text only
-                st.c["stale:impl!=model-after-renaming"] += 1
-                if len(chk.stale) < 20:
-                    chk.stale.append({"kind": "c08-renamed-side", "sql": a["orig_sql"], "renamed": a["sql"], "dialect": d,
-                                      "impl": s1, "model": ms1, "class": cls})
-            elif model_applies and summary(x0) != ms0:
-                st.c["impl!=model-on-original(left to C02)"] += 1
+            if det["model_applies"]:
+                ms0, ms1 = det["ms0"], det["ms1"]
+                if not det["model_inv"]:
+                    # the model says the code is not invariant here, the code is: the model no longer describes the code
+                    st.c["stale:model-not-invariant"] += 1
+                    if len(chk.stale) < 20:
+                        chk.stale.append({"kind": "c08-pair", "sql": a["orig_sql"], "renamed": a["sql"], "dialect": d,
+                                          "impl": [s0, s1], "model": [ms0, ms1], "class": cls})
+                elif s0 == ms0 and s1 != ms1 and not same_modulo_star(drv, a["stmt"], a["stmt"], s1, ms1, cache):
+                    # agree on the original, disagree on the renamed text only
+                    st.c["stale:impl!=model-after-renaming"] += 1
+                    if len(chk.stale) < 20:
+                        chk.stale.append({"kind": "c08-renamed-side", "sql": a["orig_sql"], "renamed": a["sql"], "dialect": d,
+                                          "impl": s1, "model": ms1, "class": cls})
+                elif s0 != ms0:
+                    st.c["impl!=model-on-original(left to C02)"] += 1
             continue
         # the implementation is NOT invariant on this pair
         st.c["not-invariant"] += 1
-        if cls == "d7" and d7_listed and model_applies and not model_inv and summary(x0) == ms0 and s1 == ms1:
-            d7_hits += 1
-            st.c["known:D7"] += 1
-            continue
-        if cls == "d7" and cap_listed and subquery_capture_explains(stmt, op, s0, s1):
-            cap_hits += 1
-            st.c["known:D2-alias-capture"] += 1
+        if verdict.startswith("known:"):
+            known_hits[verdict[6:]] += 1
+            st.c[verdict] += 1
             continue
         failures.append((si, op, d, cls, a))
-    if d7_hits:
-        chk.known("D7", d7_hits)
-    if cap_hits:
-        chk.known("D2-alias-capture", cap_hits)
+    for fid, n in known_hits.items():
+        chk.known(fid, n)
     # ---- the listed finding must still reproduce (DESIGN §2.5 step 7)
     if d7_listed and witness_deviates is False:
         chk.stale.append({"kind": "c08-known-finding", "why": "D7 is listed as a finding but its witness is invariant on this tree",
@@ -459,16 +486,20 @@ def run(chk):
     # ---- failures: shrink, tell parser re-readings from extractor failures, report
     reported = 0
     seen_shapes = set()
+    # fresh-name failures first (they cannot be confused with the listed D7 class), one report per (class, operation)
+    failures.sort(key=lambda f: (f[3] == "d7", f[1]["op"] != "rename"))
     for si, op, d, cls, a in failures:
         if reported >= 3:
             break
+        if (cls, op["op"]) in seen_shapes:
+            continue
         stmt = stmts[si][1] if si is not None else WITNESS_D7["ast"]
         if "keyword" in op["kinds"]:
             # the dialect accepted the text; did it read the keyword as an identifier?  compare parse-tree shapes
             if shape_of(a["orig_sql"], d) != shape_of(a["sql"], d):
                 st.c["keyword-reparsed(not an identifier here)"] += 1
                 continue
-        small = sqlcheck.shrink(stmt, lambda c: property_fails(drv, c, op, d, cls, cache), budget=150)
+        small = sqlcheck.shrink(stmt, lambda c: property_fails(drv, c, op, d, cls, cache, listed), budget=150)
         x0, x1, a2 = evaluate_pair(drv, small, op, d)
         if x0 is None or x1 is None:
             small = stmt
@@ -480,7 +511,7 @@ def run(chk):
                 trial = copy.deepcopy(op2)
                 del trial["subst"][j]; del trial["kinds"][j]
                 try:
-                    if trial["subst"] and property_fails(drv, small, trial, d, cls, cache):
+                    if trial["subst"] and property_fails(drv, small, trial, d, cls, cache, listed):
                         op2 = trial
                 except Infra:
                     raise
@@ -488,16 +519,15 @@ def run(chk):
                     pass
             x0, x1, a2 = evaluate_pair(drv, small, op2, d)
         s0, s1 = summary(x0), summary(x1, back_map(op2))
-        key = canon_json([cls, op2["op"], s0 == s1])
         what = ("lineage changes under %s of statement-local names (%s)" %
                 ({"rename": "a consistent renaming", "add": "adding an alias", "drop": "removing an alias", "toggle": "toggling AS"}[op2["op"]],
                  "new alias equals the bare name of another table: D7 class" if cls == "d7" else "fresh, non-clashing names"))
+        seen_shapes.add((cls, op["op"]))
         chk.violation(what, {"kind": "c08-pair", "ast": small, "op": {k: op2[k] for k in ("op", "subst", "names", "kinds") if k in op2},
                              "dialect": d, "class": cls, "sql": a2["orig_sql"], "renamed_sql": a2["sql"],
                              "impl_original": s0, "impl_renamed": s1})
         reported += 1
     sqlimpl.close_pool()
-    kw_acc = collections.Counter()
     chk.coverage.update({"statements": len(stmts), "operations": len(keep), "dialects": base_dialects + extra_dialects,
                          "renamings_per_statement": K, "distribution": st.as_dict(), "d7_class_pairs": d7_class_cases,
                          "exhaustive": False})
